@@ -499,9 +499,9 @@ func (c14) Gen(rng *rand.Rand, tier string, emit func(string)) {
 		})
 	}
 
-	nrand, nbig := 700, 6
+	nrand, nbig := 2500, 12
 	if tier == "thorough" {
-		nrand, nbig = 3000, 24
+		nrand, nbig = 5000, 24
 	}
 	for i := 0; i < nrand; i++ {
 		n := 1 + rng.Intn(40)
